@@ -71,6 +71,11 @@ package symbols
 //@             && !ast.termEq(left, right) && !ast.termEq(right, ast.AnyBound) && !ast.termEq(left, ast.BotBound) && !ast.termEq(right, ast.NameBound)
 //@             && !isBuiltinBase(left as ast.Constant) && !isBuiltinBase(right as ast.Constant)
 //@             ==> (forall c ast.Constant :: nameMember(left as ast.Constant, c) ==> nameMember(right as ast.Constant, c))
+// Only a user-defined name type conforms to /name: the built-in base types (/number, /string, ...) are written as name
+// constants too, but their members are not names.
+//@   ensures result && (left is ast.Constant) && (right is ast.Constant) && ast.termEq(right, ast.NameBound) && !ast.termEq(right, ast.AnyBound) && !ast.termEq(left, right) && !ast.termEq(left, ast.BotBound)
+//@             && !strings.isPrefix((right as ast.Constant).Symbol + "/", (left as ast.Constant).Symbol)
+//@             ==> !isBuiltinBase(left as ast.Constant)
 
 // ---- C10: an accepted struct type has well-shaped optional fields -------------------------------------------------
 // Conformance checking indexes both arguments of every fn:opt(...) of a struct type: the well-formedness check lets a
